@@ -324,11 +324,33 @@ def r4_tensor_json(ctx):
     ctx.check(ok, "C16.R4", lc, rd[0] if rd else lc.node, "CSV identifiers read as strings", "CSV identifiers are not forced to strings: numeric-looking identifiers change type")
 
 
+def r5_exact_export(ctx):
+    """'convert losslessly': the table / CSV / JSON writers export the values with every digit they have (pandas and json write the
+    shortest exact representation of a double by default) - no default float format, rounding or narrowing cast."""
+    ctx.rule("C16.R5", "the writers of the container export values unchanged (no float_format, rounding or narrowing cast)", 3)
+    LOSSY_KW = ("float_format", "decimals", "double_precision", "precision")
+    for name in ("_save_csv", "_save_json", "to_dataframe", "save"):
+        f = ctx.ix.func(MOD, f"{CLS}.{name}", "C16.R5")
+        bad = None
+        for n in ast.walk(f.node):
+            if isinstance(n, ast.Call):
+                fn_ = U(n.func)
+                if any(k.arg in LOSSY_KW for k in n.keywords) or fn_.split(".")[-1] in ("round", "around", "format_float_positional", "format_float_scientific") or fn_ in ("round",):
+                    bad = n
+            if isinstance(n, ast.Dict) and any(isinstance(k, ast.Constant) and k.value in LOSSY_KW for k in n.keys):
+                bad = n
+            if isinstance(n, ast.Constant) and isinstance(n.value, str) and ("%." in n.value or ":." in n.value) and any(c in n.value for c in "gfe") and len(n.value) < 12:
+                bad = n
+        ctx.check(bad is None, "C16.R5", f, bad if bad is not None else f.node, f"{name}: values exported with all their digits",
+                  f"`{U(bad)[:70] if bad is not None else ''}` makes {name} write the values with a reduced precision: a save / load round trip no longer gives the values back")
+
+
 def rules(ctx):
     r1_shape_cases(ctx)
     r2_validate_before_commit(ctx)
     r3_codec(ctx)
     r4_tensor_json(ctx)
+    r5_exact_export(ctx)
     ctx.trust("pandas DataFrame / json round trip of Python scalars and lists")
 
 
